@@ -37,8 +37,8 @@ MultiOK(r) == IF r.named = <<>> THEN PD!FrameOK(B(r), A(r))
 EffectOK(r) ==
     LET k == r.cmd.k IN
     CASE k \in ReadOnlyKinds -> PD!FrameOK(B(r), A(r))
-      [] k = "delete" -> PD!DeleteOneOK(B(r), A(r), r.idcp)
-      [] k = "deleteall" -> PD!DeleteAllOK(B(r), A(r))
+      [] k \in {"delete", "delete_ext"} -> PD!DeleteOneOK(B(r), A(r), r.idcp)
+      [] k \in {"deleteall", "deleteall_ext"} -> PD!DeleteAllOK(B(r), A(r))
       [] k \in {"list+deleteall", "all+deleteall"} ->
             PD!FrameOK(B(r), A(r)) \/ PD!DeleteAllOK(B(r), A(r))
       [] k \in {"count+delete", "plid+delete"} ->
@@ -53,7 +53,7 @@ EffectOK(r) ==
 
 \* --delete reports 'PEL not found' exactly when no file qualifies
 NotFoundOK(r) ==
-    r.cmd.k = "delete" => (r.not_found <=> ~PD!DeleteOneFound(B(r), r.idcp))
+    r.cmd.k \in {"delete", "delete_ext"} => (r.not_found <=> ~PD!DeleteOneFound(B(r), r.idcp))
 
 \* exit statuses are not part of this statement; only "no other exit path" is asked
 ExitOK(r) == r.exit \in {0, 1}
